@@ -290,7 +290,14 @@ func c12Gen(r *rng.R, tier string) c12Case {
 		k.way = "mage"
 	}
 	hon := func() bool { return r.Bool() }
-	switch r.Intn(10) {
+	switch r.Intn(11) {
+	case 10: // SIGINT while a *later* target runs: the subscription made for the first target still holds
+		k.targets = []c12Target{{short, hon(), 0, false}, {long, true, 0, false}, {short, true, 0, false}}
+		k.sig1 = short + d*8/10
+		if r.Bool() { // … an ignoring one, ended by a second SIGINT
+			k.targets[1].honours = false
+			k.sig2 = k.sig1 + 400
+		}
 	case 9: // the deadline strikes while the target is blocked in an external command that outlives it
 		k.d = d
 		k.targets = []c12Target{{dur: long, sh: true}}
@@ -361,6 +368,8 @@ func c12(c *Ctx) {
 	fixed := []c12Case{
 		{d: 600, targets: []c12Target{{dur: 2500, sh: true}}, way: "mage"},
 		{d: 600, targets: []c12Target{{dur: 2500, sh: true}}, way: "static"},
+		// SIGINT during the second target: cancellation, not sudden death (the first target's end must not drop the handler)
+		{targets: []c12Target{{dur: 300, honours: true}, {dur: 2400, honours: true}, {dur: 200, honours: true}}, sig1: 900, way: "static"},
 	}
 	for i := 0; i < c.N+len(fixed); i++ {
 		var k c12Case
